@@ -18,16 +18,22 @@ Local Open Scope N_scope.
 
 (** ** the predefined entities, in content and in attribute values *)
 Lemma cont_nodt nm e : resolve_ref [] false false nm = IOk e ->
-  exists x' v, W.expand 6 en0 [] (W.XEntRef nm) = inr x' /\ Info.expand [] nm = IOk v /\
-    (forall acc, Infoset.item_tokens 6 en0 [] x' acc = ([], rev v ++ acc)) /\
-    (forall st acc, item_tokens2 6 en0 [] x' st acc = ([], (true, rev v ++ acc))).
+  exists x', W.expand 6 en0 [] (W.XEntRef nm) = inr x' /\
+    (Infoset.no_unexp x' = true -> exists v, Info.expand [] nm = IOk v /\
+       (forall acc, Infoset.item_tokens 6 en0 [] x' acc = ([], rev v ++ acc)) /\
+       (forall st acc, item_tokens2 6 en0 [] x' st acc = ([], (true, rev v ++ acc)))).
 Proof.
   intros H. apply resolve_nodoctype in H. destruct H as [->|[->|[->|[->| ->]]]].
-  - exists (W.XExp [108;116] [W.XCharRef 60]), [60]. repeat split; vm_compute; reflexivity.
-  - exists (W.XExp [103;116] [W.XChar 62]), [62]. repeat split; vm_compute; reflexivity.
-  - exists (W.XExp [97;109;112] [W.XCharRef 38]), [38]. repeat split; vm_compute; reflexivity.
-  - exists (W.XExp [97;112;111;115] [W.XChar 39]), [39]. repeat split; vm_compute; reflexivity.
-  - exists (W.XExp [113;117;111;116] [W.XChar 34]), [34]. repeat split; vm_compute; reflexivity.
+  - exists (W.XExp [108;116] [W.XCharRef 60]). split; [vm_compute; reflexivity|]. intros _. exists [60]. repeat split; vm_compute; reflexivity.
+  - exists (W.XExp [103;116] [W.XChar 62]). split; [vm_compute; reflexivity|]. intros _. exists [62]. repeat split; vm_compute; reflexivity.
+  - exists (W.XExp [97;109;112] [W.XCharRef 38]). split; [vm_compute; reflexivity|]. intros _. exists [38]. repeat split; vm_compute; reflexivity.
+  - exists (W.XExp [97;112;111;115] [W.XChar 39]). split; [vm_compute; reflexivity|]. intros _. exists [39]. repeat split; vm_compute; reflexivity.
+  - exists (W.XExp [113;117;111;116] [W.XChar 34]). split; [vm_compute; reflexivity|]. intros _. exists [34]. repeat split; vm_compute; reflexivity.
+Qed.
+
+Lemma nu_nodt nm e : resolve_ref [] false false nm = IOk e -> forall x', W.expand 6 en0 [] (W.XEntRef nm) = inr x' -> Infoset.no_unexp x' = true.
+Proof.
+  intros H x' Hx. apply resolve_nodoctype in H. destruct H as [->|[->|[->|[->| ->]]]]; vm_compute in Hx; injection Hx as <-; reflexivity.
 Qed.
 
 Lemma attrv_nodt nm e : resolve_ref [] false true nm = IOk e ->
@@ -45,16 +51,18 @@ Proof.
 Qed.
 
 Lemma attrs_nodt n attrs attrs' : qname_ok n -> Forall p_attribute_ok' attrs -> build_attrs (ents_of None) false attrs = IOk attrs' ->
+  (fun _ _ => true) (d_qname n) (map x_att attrs) = true ->
   attr_rows None (fst (qname_parts n)) (snd (qname_parts n)) attrs' = map KTok (Infoset.attr_tokens 6 en0 [] (d_qname n) (map x_att attrs)).
 Proof.
-  intros _ Ha Hat. rewrite attr_tokens_nodecl.
+  intros _ Ha Hat _. rewrite attr_tokens_nodecl.
   exact (rows_nodecl None false en0 5 attrv_nodt _ _ attrs attrs' eq_refl Ha Hat).
 Qed.
 
 Lemma expand_leaf0 x : match x with W.XElem _ _ _ _ | W.XEntRef _ | W.XExp _ _ => False | _ => True end -> W.expand 6 en0 [] x = inr x.
 Proof. destruct x; intros H; try destruct H; reflexivity. Qed.
 
-Definition element_viewed0 := element_viewed None false en0 6 [] cont_nodt attrs_nodt expand_elem expand_leaf0.
+Definition element_viewed0 := element_viewed None false en0 6 [] (fun _ _ => true) cont_nodt attrs_nodt expand_elem expand_leaf0.
+Definition element_no_unexp0 := element_no_unexp [] false en0 6 nu_nodt expand_elem expand_leaf0.
 
 (** ** Misc *)
 Lemma misc_dump dt merged (l : list misc) :
@@ -109,7 +117,8 @@ Proof.
   unfold build_document, build_document_gen in Hb. rewrite Hnd in Hb. cbn [ibind] in Hb.
   apply ibind_ok in Hb. destruct Hb as [el [Hel Hb]]. injection Hb as <-.
   unfold external_subset in Hel. cbn [is_some] in Hel. rewrite andb_false_r in Hel.
-  destruct (element_viewed0 (d_element pd) He el Hel) as (x' & Ex & Rx & Mx & Hxe).
+  destruct (element_viewed0 (d_element pd) He el Hel) as (x' & Ex & Hxe & RMx).
+  destruct (RMx (tree_good_true x' (element_no_unexp0 (d_element pd) He el Hel x' Ex))) as [Rx Mx].
   (* the root of check_doc is x' *)
   assert (Hroot : root = x').
   { unfold W.check_doc in Hc. change (W.doc_env (x_doc_nodt pd)) with en0 in Hc. change (W.ent_fuel (x_doc_nodt pd)) with 6%nat in Hc.
